@@ -193,6 +193,23 @@ def check_enum(ctx, nested, before=()):
         ctx.viol("C08.enum", case, f"{len(set(got) - set(want))} yielded tree(s) are not refinements of the input")
     if set(want) - set(got):
         ctx.viol("C08.enum", case, f"{len(set(want) - set(got))} of the {len(want)} binary refinements are missing")
+    # history: colour annotations of the SAME tree object are changed in place and it is refined again
+    internal = [n for n in tree.traverse() if not n.is_leaf()]
+    if internal and len(log) >= 2:
+        node = internal[len(log) % len(internal)]
+        node.add_feature("color", "0A0B0C" if getattr(node, "color", None) != "0A0B0C" else "C0B0A0")
+        orig2 = ete_info(tree)
+        try:
+            for t2 in binarize(tree):
+                info2 = ete_info(t2)
+                for c, (name, color, ch) in orig2.items():
+                    if c in info2 and info2[c][1] != color:
+                        ctx.viol("C08.enum", dict(case, history="colour of a node of the same tree object changed in place, refined again"),
+                                 f"after an in-place colour change, clade {sorted(c)} has colour {info2[c][1]!r} in a refinement, the tree now says {color!r}")
+                        break
+            ctx.count("mon.enum_recoloured_inplace")
+        except Exception as exc:  # noqa: BLE001
+            ctx.viol("C08.enum", case, f"binarize raised after an in-place colour change: {type(exc).__name__}: {exc}")
     maxk = max(len(M.children[v]) for v in M.nodes)
     ctx.sig(("enum", M.newick()), maxk >= 3)
     if maxk >= 3 and len(M.leaves()) >= 4:
